@@ -117,10 +117,15 @@ pub struct Report {
     pub violations: Vec<Value>,
     pub samples: Vec<Value>,
     pub extra: serde_json::Map<String, Value>,
+    classes: std::collections::HashSet<String>,
 }
 impl Report {
     pub fn violation(&mut self, what: &str, replay: Value) {
-        if self.violations.len() < 20 {
+        // the first 20 are kept, after that one per message class (so that many repetitions of one finding
+        // cannot crowd out a different one)
+        let class: String = what.chars().take(56).collect();
+        let new_class = self.classes.insert(class);
+        if self.violations.len() < 20 || (new_class && self.violations.len() < 200) {
             self.violations.push(json!({"what": what, "replay": replay}));
         } else {
             let n = self.extra.entry("violations_truncated").or_insert(json!(0));
